@@ -558,6 +558,200 @@ def run_generator_typing():
             if bad else None, 'wall_s': round(time.time() - t0, 2)}
 
 
+# ------------------------------- consequence: same-sort replacements (z3)
+
+CONSEQ_MUTS = [('mutators_core', 'Constants'),
+               ('mutators_core', 'ReplaceByVariable'),
+               ('mutators_smtlib', 'IntroduceFreshVariable')]
+CONSEQ_NUMS = ((3, 5, 2), (7, 4, 2), (9, 3, 1), (1, 1, 0))
+
+
+def _term_positions(t, scope, out):
+    """(node, frozenset of binder-bound symbols in scope) for every term
+    position below ``t`` (heads, indices, sorts and binder lists are not
+    term positions)."""
+    out.append((t, scope))
+    if t.is_leaf() or len(t) == 0:
+        return
+    h = t[0]
+    if h.is_leaf():
+        hd = h.data
+        if hd in ('_', 'as'):
+            return
+        if hd in ('forall', 'exists') and len(t) > 2 and not t[1].is_leaf():
+            inner = scope | {v[0].data for v in t[1]
+                             if len(v) == 2 and v[0].is_leaf()}
+            for c in t[2:]:
+                _term_positions(c, inner, out)
+            return
+        if hd == 'let' and len(t) > 2 and not t[1].is_leaf():
+            for b in t[1]:
+                if not b.is_leaf() and len(b) == 2:
+                    _term_positions(b[1], scope, out)
+            inner = scope | {b[0].data for b in t[1]
+                             if len(b) == 2 and b[0].is_leaf()}
+            for c in t[2:]:
+                _term_positions(c, inner, out)
+            return
+        if hd == '!':
+            _term_positions(t[1], scope, out)
+            return
+    for c in t[1:]:
+        _term_positions(c, scope, out)
+
+
+def _bound_symbols(exprs):
+    from ddsmt import nodes
+    out = set()
+    for n in nodes.dfs(exprs):
+        if n.has_ident() and len(n) > 2 and not n[1].is_leaf() \
+                and n.get_ident() in ('let', 'forall', 'exists'):
+            out |= {v[0].data for v in n[1]
+                    if len(v) == 2 and v[0].is_leaf()}
+    return out
+
+
+def _z3_accepts(text):
+    import z3
+    s = z3.Solver()
+    try:
+        s.from_string(text)
+        return None
+    except z3.Z3Exception as e:
+        return str(e)[:300]
+
+
+def conseq_instance(fname, nums, want=None):
+    """All proposals of the 'same sort' mutators at every term position of
+    one generated script.  Returns (n_proposals, n_out_of_scope, defect|None,
+    skipped_reason|None); ``want`` = (position, mutator, proposal) restricts
+    to one proposal (replay)."""
+    import importlib
+    from ddsmt import smtlib, nodeio, nodes
+    from ddsmt.nodes import Node
+    from ddsmt.mutator_utils import apply_simp
+    fam, sel = FAMS[fname]
+    inst = Inst()
+    try:
+        fam(inst, *nums, sel)
+    except Exception as e:
+        return 0, 0, None, f'no instance: {type(e).__name__}'
+    exprs = [_mk(Node, d) for d in inst.decls]
+    for t, s in inst.closed:
+        tn = _mk(Node, t)
+        if isinstance(tn.data, str):
+            continue
+        exprs.append(Node('assert', tn) if s == 'Bool'
+                     else Node('assert', Node('=', tn, tn)))
+    e0 = _z3_accepts(nodeio.write_smtlib_to_str(exprs))
+    if e0:
+        return 0, 0, None, f'instance not accepted by z3: {e0[:80]}'
+    smtlib.collect_information(exprs)
+    bound = _bound_symbols(exprs)
+    pos = []
+    for e in exprs:
+        if e.has_ident() and e.get_ident() == 'assert' and len(e) == 2:
+            _term_positions(e[1], frozenset(), pos)
+    muts = [(cn, getattr(importlib.import_module('ddsmt.' + mn), cn)())
+            for mn, cn in CONSEQ_MUTS]
+    n = oos = 0
+    for pi, (node, scope) in enumerate(pos):
+        for cn, m in muts:
+            try:
+                if not m.filter(node):
+                    continue
+                props = list(m.mutations(node))
+            except Exception:
+                continue             # C04's business
+            for qi, p in enumerate(props):
+                if want is not None and want != (pi, cn, qi):
+                    continue
+                n += 1
+                repl = list(p.substs.values())
+                res = apply_simp(exprs, p)
+                txt = nodeio.write_smtlib_to_str(res)
+                err = _z3_accepts(txt)
+                if not err:
+                    continue
+                used = {x.data for r in repl if r is not None
+                        for x in nodes.dfs(r) if x.is_leaf()}
+                if cn == 'ReplaceByVariable' and (used & bound) - scope:
+                    # known finding C16-bound-symbol-out-of-scope
+                    oos += 1
+                    continue
+                return n, oos, {
+                    'family': fname, 'nums': list(nums), 'position': pi,
+                    'mutator': cn, 'proposal': qi,
+                    'msg': (f'{cn} on {node.__str__()[:80]} in family {fname}'
+                            f' {tuple(nums)}: replacement '
+                            f'{[r.__str__() for r in repl if r is not None]}'
+                            f' is rejected by the sort checker: {err[:160]}')
+                }, None
+    return n, oos, None, None
+
+
+def _conseq_options():
+    from ddsmt import options, mutators, cli
+    setattr(options, '__PARSED_ARGS', options.parse_options(
+        mutators, ['in.smt2', 'out.smt2', 'cmd']))
+    cli.setup_logging()
+
+
+def run_conseq(fnames, tier):
+    import time
+    t0 = time.time()
+    _conseq_options()
+    n = oos = 0
+    skipped = []
+    bad = None
+    nums = CONSEQ_NUMS if tier != 'quick' else CONSEQ_NUMS[:2] + CONSEQ_NUMS[3:]
+    for fname in fnames:
+        for nu in nums:
+            k, o, d, sk = conseq_instance(fname, nu)
+            n += k
+            oos += o
+            if sk:
+                skipped.append(f'{fname}{nu}: {sk}')
+            if d and bad is None:
+                bad = d
+        if bad:
+            break
+    return {'status': 'VIOLATED' if bad else 'CONFIRMED',
+            'cex': {k: v for k, v in bad.items() if k != 'msg'} if bad
+            else None,
+            'exc': {'type': 'Violation', 'msg': bad['msg']} if bad else None,
+            'paths': n, 'paths_ok': n, 'solver_checks': n,
+            'solver_seconds': 0.0,
+            'samples': [{'families': fnames[:3], 'numerals': list(nums)}],
+            'queries': {'proposals_sort_checked': n,
+                        'in_known_region_out_of_scope_bound_symbol': oos,
+                        'instances_skipped': skipped[:6],
+                        'n_instances_skipped': len(skipped)},
+            'note': 'z3 front end as independent sort checker of the script '
+                    'after each proposed replacement (concrete numerals)',
+            'wall_s': round(time.time() - t0, 2)}
+
+
+def conseq_known_witness():
+    """Replay of known finding C16-bound-symbol-out-of-scope: a let-bound
+    symbol offered outside its binder."""
+    from ddsmt import smtlib, nodeio, mutators_core
+    from ddsmt.mutator_utils import apply_simp
+    exprs = list(nodeio.parse_smtlib(
+        '(declare-const a Int)(declare-const b Int)'
+        '(assert (= a (let ((u (+ b 1))) (* u u))))'))
+    smtlib.collect_information(exprs)
+    a = exprs[2][1][1]
+    m = mutators_core.ReplaceByVariable()
+    for p in m.mutations(a):
+        res = apply_simp(exprs, p)
+        txt = nodeio.write_smtlib_to_str(res)
+        if ' u ' in txt.split('(let')[0] and _z3_accepts(txt):
+            return ('ReplaceByVariable replaces a by the let-bound u outside '
+                    'its binder: ' + txt.replace(chr(10), ' '))
+    return None
+
+
 def _setup():
     from vlib import shims
     shims.install_hash('T')
@@ -590,10 +784,26 @@ def partitions(tier):
                   'budget_s': 60})
     parts.append({'name': 'generator_typing', 'kind': 'E2',
                   'run': run_generator_typing, 'budget_s': 120})
+    names = list(FAMS)
+    nch = 14
+    for k in range(nch):
+        chunk = names[k::nch]
+        parts.append({'name': f'conseq_{k}', 'kind': 'E2',
+                      'run': (lambda chunk=chunk: run_conseq(chunk, tier)),
+                      'budget_s': 300, 'bounds': {'families': len(chunk)}})
     return parts
 
 
 def replay(part, cex):
+    if part == 'known_out_of_scope':
+        _conseq_options()
+        return conseq_known_witness()
+    if part.startswith('conseq'):
+        _conseq_options()
+        n, o, d, sk = conseq_instance(
+            cex['family'], tuple(cex['nums']),
+            (cex['position'], cex['mutator'], cex['proposal']))
+        return d['msg'] if d else None
     if part == 'defaults':
         r = run_defaults()
         return str(r['cex']) if r['cex'] else None
